@@ -1,92 +1,5 @@
-import QuillModel.Extracted.Backend
-import QuillModel.Props.C03
-import QuillModel.Props.C10
-import QuillModel.Props.C08
-/-!
-Side-conditions of the conservation / exactly-once theorems (C03), the fault theorems (C10) and the dropping-queue
-accounting (C08) for the facts extracted from the current headers (`BackendWorker.h`, `Logger.h`,
-`ThreadContextManager.h`): the structural facts the model hard-wires (a record is finished only after it was decoded
-into a transit event, the commit happens only if something was read; a context is dropped only when invalid with an
-empty queue *and* an empty transit buffer; the event is popped on the exception path too, before the flag is raised;
-every sink is flushed in its own try/catch; only ordinary log events are counted) and the `Cfg` flags the theorems
-carry as explicit hypotheses (`reportBeforeFlushCleanup`).
--/
-namespace Obligations
-open Backend Backend.PA
-
-theorem backendA_extraction_ok : Extracted.backendFailures = [] := by decide
-
-/-- what the C03 theorems assume of the code, as extracted: the read loop finishes a record only after decoding it
-    and commits only what it read; clean-up requires the empty transit buffer; the event is popped inside the
-    per-event try/catch path whatever is thrown, and before a flush flag is raised -/
-theorem backendA_C03_structure :
-    Extracted.readLoopShape = true ∧ Extracted.cleanupNeedsEmptyBuffer = true ∧ Extracted.perEventCatch = true ∧
-    Extracted.popBeforeFlag = true := by decide
-
-/-- C03 for the code as extracted: every configuration carrying the extracted parameters (counter width, refresh
-    order, report-before-clean-up), every freshly started system, every schedule -/
-theorem C03_extracted (s0 : BSt) (h0 : Fresh s0)
-    (_hb : s0.cfg.invalidBits = Extracted.invalidBits) (_hr : s0.cfg.refreshAfterSample = Extracted.refreshAfterSample)
-    (_hf : s0.cfg.reportBeforeFlushCleanup = Extracted.reportBeforeFlushCleanup) (ops : List Op) (i : Nat) :
-    ((runOps s0 ops).th i).accepted =
-        ((runOps s0 ops).th i).popped ++ ((runOps s0 ops).th i).buf ++ ((runOps s0 ops).th i).qStmts ∧
-    (((runOps s0 ops).th i).removed = true →
-        ((runOps s0 ops).th i).accepted = ((runOps s0 ops).th i).popped) ∧
-    (∀ st ∈ ((runOps s0 ops).th i).accepted, isOrd st = true → ∀ sid,
-        wcount (runOps s0 ops).log sid st.id ≤ ((runOps s0 ops).lgOf st.lg).sinks.count sid) :=
-  ⟨C03_conservation s0 h0.inv ops i, fun hr => (C03_removed_drained s0 h0.inv ops i hr).2.2.2,
-   fun st hm ho sid => C03_at_most_once s0 h0.inv ops i st hm ho sid⟩
-
-/-- what the C10 theorems assume of the code, as extracted: the per-event try/catch (with the pop after it, before
-    the flag), the per-sink try/catch around `flush_sink`, the catch-all around the formatting step -/
-theorem backendA_C10_structure :
-    Extracted.perEventCatch = true ∧ Extracted.perSinkFlushCatch = true ∧ Extracted.popBeforeFlag = true ∧
-    Extracted.catchAllFormat = true := by decide
-
-/-- C10 for the code as extracted: every fresh system (any sinks with any fault assignment) whose configuration
-    carries the extracted parameters, every schedule: conservation per context, the fault assignment is never
-    altered, at most once per sink -/
-theorem C10_extracted (s0 : BSt) (h0 : Fresh s0) (_hc : s0.cfg.catchAllFormat = Extracted.catchAllFormat)
-    (_hb : s0.cfg.invalidBits = Extracted.invalidBits) (ops : List Op) (i : Nat) :
-    ((runOps s0 ops).th i).accepted =
-        ((runOps s0 ops).th i).popped ++ ((runOps s0 ops).th i).buf ++ ((runOps s0 ops).th i).qStmts ∧
-    (∀ sid, ((runOps s0 ops).sinkOf sid).wthrow = (s0.sinkOf sid).wthrow ∧
-            ((runOps s0 ops).sinkOf sid).fthrow = (s0.sinkOf sid).fthrow) ∧
-    (∀ st ∈ ((runOps s0 ops).th i).accepted, isOrd st = true → ∀ sid,
-        wcount (runOps s0 ops).log sid st.id ≤ ((runOps s0 ops).lgOf st.lg).sinks.count sid) :=
-  ⟨C10_conservation_under_faults s0 h0.inv ops i,
-   fun sid => ⟨(C10_fault_schedule_constant s0 ops sid).1, (C10_fault_schedule_constant s0 ops sid).2.1⟩,
-   fun st hm ho sid => C10_at_most_once_under_faults s0 h0.inv ops i st hm ho sid⟩
-
-/-- what the C08 theorems assume of the code, as extracted: only ordinary log events bump the failure counter, the
-    control requests retry, the Flush path reports the counters before it removes contexts, and the clean-up keeps a
-    context whose counter is non-zero (the flag `C08_removed_context_reported` carries as a hypothesis and the witness
-    `C08_count_lost_between_check_and_cleanup` shows to be necessary) -/
-theorem backendA_C08_structure :
-    Extracted.countsOnlyLogEvents = true ∧ Extracted.flushRetries = true ∧
-    Extracted.reportBeforeFlushCleanup = true ∧ Extracted.cleanupKeepsUnreported = true := by decide
-
-/-- C08 for the code as extracted: every started system with a dropping queue, every schedule: no call blocks and
-    Σ discarded = reported + Σ fail over all contexts -/
-theorem C08_extracted (s0 : BSt) (h0 : Started s0) (hd : s0.cfg.dropping = true)
-    (_hf : s0.cfg.reportBeforeFlushCleanup = Extracted.reportBeforeFlushCleanup) (ops : List Op) :
-    (∀ c ∈ ctrs (runOps s0 ops), c.2.2 = 0) ∧
-    ((ctrs (runOps s0 ops)).map (fun c => c.2.1)).sum =
-      (runOps s0 ops).reported + ((ctrs (runOps s0 ops)).map (·.1)).sum :=
-  C08_dropped_equals_reported_plus_pending s0 (C08_started_inv s0 h0) hd ops
-
-/-- a reclaimed context has no unreported drops, for every fresh system whose configuration carries the extracted
-    clean-up flag, every schedule -/
-theorem C08_removed_extracted (s0 : BSt) (h0 : Fresh s0)
-    (hk : s0.cfg.cleanupKeepsUnreported = Extracted.cleanupKeepsUnreported) (ops : List Op) (i : Nat)
-    (hr : ((runOps s0 ops).th i).removed = true) : ((runOps s0 ops).th i).fail = 0 :=
-  C08_removed_context_reported s0 (C08_fresh_reclaim_inv s0 h0 (hk.trans backendA_C08_structure.2.2.2)) ops i hr
-
-/-- the two witness schedules lose nothing for the extracted flag values -/
-theorem C08_witnesses_extracted :
-    ((runOps (c08Init Extracted.reportBeforeFlushCleanup Extracted.cleanupKeepsUnreported) f17Sched).th 0).fail = 0 ∧
-    (runOps (c08Init Extracted.reportBeforeFlushCleanup Extracted.cleanupKeepsUnreported) f17Sched).reported = 1 ∧
-    ((runOps (c08Init Extracted.reportBeforeFlushCleanup Extracted.cleanupKeepsUnreported) f23Sched).th 0).removed = false := by
-  decide
-
-end Obligations
+import QuillModel.Obligations.BackendA_C03
+import QuillModel.Obligations.BackendA_C08
+import QuillModel.Obligations.BackendA_C10
+import QuillModel.Obligations.BackendA_Common
+/-! Umbrella of the per-property obligation modules of proof bundle A (`BackendA_<Cxx>.lean`). -/
